@@ -15,6 +15,7 @@ type Mutex struct {
 	owner *Task
 }
 
+//go:norace
 func (m *Mutex) Lock() {
 	s := Current()
 	if s == nil {
@@ -27,6 +28,7 @@ func (m *Mutex) Lock() {
 	m.real.Lock()
 }
 
+//go:norace
 func (m *Mutex) TryLock() bool {
 	s := Current()
 	if s == nil {
@@ -46,6 +48,7 @@ func (m *Mutex) TryLock() bool {
 	return ok
 }
 
+//go:norace
 func (m *Mutex) Unlock() {
 	s := Current()
 	if s == nil {
@@ -69,6 +72,7 @@ type RWMutex struct {
 	wwait   int
 }
 
+//go:norace
 func (m *RWMutex) Lock() {
 	s := Current()
 	if s == nil {
@@ -86,6 +90,7 @@ func (m *RWMutex) Lock() {
 	m.real.Lock()
 }
 
+//go:norace
 func (m *RWMutex) Unlock() {
 	s := Current()
 	if s == nil {
@@ -100,6 +105,7 @@ func (m *RWMutex) Unlock() {
 	raceEnable()
 }
 
+//go:norace
 func (m *RWMutex) RLock() {
 	s := Current()
 	if s == nil {
@@ -112,6 +118,7 @@ func (m *RWMutex) RLock() {
 	m.real.RLock()
 }
 
+//go:norace
 func (m *RWMutex) RUnlock() {
 	s := Current()
 	if s == nil {
@@ -126,11 +133,15 @@ func (m *RWMutex) RUnlock() {
 	raceEnable()
 }
 
+//go:norace
 func (m *RWMutex) RLocker() sync.Locker { return (*rlocker)(m) }
 
 type rlocker RWMutex
 
-func (r *rlocker) Lock()   { (*RWMutex)(r).RLock() }
+//go:norace
+func (r *rlocker) Lock() { (*RWMutex)(r).RLock() }
+
+//go:norace
 func (r *rlocker) Unlock() { (*RWMutex)(r).RUnlock() }
 
 // Once replaces sync.Once (same structure as the standard one, over Mutex).
@@ -139,6 +150,7 @@ type Once struct {
 	m    Mutex
 }
 
+//go:norace
 func (o *Once) Do(f func()) {
 	if atomic.LoadUint32(&o.done) == 1 {
 		Yield("Once.Do")
